@@ -24,7 +24,7 @@ type step struct {
 }
 
 type prog struct {
-	Lift int `json:"lift,omitempty"` // how the lifted arguments are made: 0 L1/L2, 1 zero values, 2 converted from other type parameters
+	Lift int `json:"lift,omitempty"` // how the lifted arguments are made: 0 L1/L2, 1 zero values, 2 converted from other type parameters, 3 L1/L2 of a function payload
 	A     string `json:"a"`
 	Steps []step `json:"steps"`
 }
@@ -126,6 +126,11 @@ func tokOf(i int) any {
 	if liftVariant == 1 {
 		return nil // a zero-valued lifted argument carries nothing
 	}
+	if liftVariant == 3 {
+		// the payload is opaque to the library: here a one-argument function whose own signature (any -> fmt.Stringer)
+		// has nothing to do with the type parameters of the step that lifts it
+		return widePayload
+	}
 	return fmt.Sprintf("tok-%d", i)
 }
 
@@ -158,6 +163,40 @@ func (n *mnode) trace(depth int, out *[]event) {
 
 var boom = errors.New("visitor failed here")
 
+var widePayload = func(x any) fmt.Stringer { return nil }
+
+// the errors a failing visitor returns: an error is whatever is not the nil interface - also an error value whose
+// dynamic value is a nil pointer, a nil map or a nil channel
+type ptrErr struct{ n int }
+
+func (*ptrErr) Error() string { return "a nil *ptrErr" }
+
+type mapErr map[string]int
+
+func (mapErr) Error() string { return "a nil mapErr" }
+
+type chanErr chan int
+
+func (chanErr) Error() string { return "a nil chanErr" }
+
+var booms = []error{boom, (*ptrErr)(nil), mapErr(nil), chanErr(nil), boom}
+
+func boomAt(k int) error { return booms[k%len(booms)] }
+
+// sameErr: identity of the error value returned (dynamic type and, for the comparable ones, value)
+func sameErr(a, b error) bool {
+	if a == nil || b == nil {
+		return a == nil && b == nil
+	}
+	if reflect.TypeOf(a) != reflect.TypeOf(b) {
+		return false
+	}
+	if _, isMap := a.(mapErr); isMap {
+		return a.(mapErr) == nil && b.(mapErr) == nil
+	}
+	return a == b
+}
+
 type recorder struct {
 	ev     []event
 	failAt int
@@ -173,7 +212,7 @@ type seqSeen struct {
 func (r *recorder) hit(cb string, depth int, f string) error {
 	r.ev = append(r.ev, event{cb, depth, f})
 	if len(r.ev)-1 == r.failAt {
-		return boom
+		return boomAt(r.failAt)
 	}
 	if len(r.ev) > 100000 {
 		return errors.New("runaway visit")
@@ -462,7 +501,7 @@ func runProg(p prog, fails []int, allFails bool) {
 				k := len(want) - 1
 				rf := &recorder{failAt: k}
 				var ferr error
-				if pn := common.Catch(func() { ferr = sn.node.Apply(d0, rf) }); pn != nil || ferr != boom || len(rf.ev) != k+1 {
+				if pn := common.Catch(func() { ferr = sn.node.Apply(d0, rf) }); pn != nil || !sameErr(ferr, boomAt(k)) || len(rf.ev) != k+1 {
 					rec.Violate(site+"revisit/fail", fmt.Sprintf("visiting the node of callback %d again from depth %d with the visitor failing at its last callback: panic %v, error %v, %d callbacks (want %d)", sn.at, d0, pn, ferr, len(rf.ev), k+1), c)
 					return
 				}
@@ -496,8 +535,8 @@ func runProg(p prog, fails []int, allFails bool) {
 			rec.Violate(site+"fail/panic", fmt.Sprintf("fail at %d: %v", k, pn), c)
 			return
 		}
-		if err != boom {
-			rec.Violate(site+"fail/error", fmt.Sprintf("visitor failed at callback %d (%v) but Apply returned %v", k, want[k], err), c)
+		if !sameErr(err, boomAt(k)) {
+			rec.Violate(site+"fail/error", fmt.Sprintf("visitor failed at callback %d (%v) with the error %#v but Apply returned %#v", k, want[k], boomAt(k), err), c)
 			return
 		}
 		if len(ev) != k+1 {
@@ -620,7 +659,7 @@ func main() {
 			p.Steps = append(p.Steps, s)
 			b = nb
 		}
-		p.Lift = []int{0, 0, 1, 2}[k%4]
+		p.Lift = []int{0, 0, 1, 2, 3}[k%5]
 		runProg(p, nil, true)
 	}
 }
